@@ -148,36 +148,34 @@ Definition str_val (t : rt) : str := match t with RStr s => s | _ => [] end.
    Text a recursive construction; HRef is rebuilt WITHOUT `external` (it defaults to
    False, 887).  Symbols (cls None) and singleton groups are kept as they are.
    Fuel: the recursion goes through the parts of the parts. *)
+Definition merge_group (rec : kind -> list rt -> option rt) (g : list rt) : option (list rt) :=
+  match g with
+  | [] => Some []
+  | [x] => Some [x]
+  | x :: _ =>
+    match typeinfo x with
+    | TINone => Some g
+    | TIStr => Some [RStr (flat_map str_val (flat_map parts_of g))]
+    | TIText => option_map (fun t => [t]) (rec KText (flat_map parts_of g))
+    | TITag n => option_map (fun t => [t]) (rec (KTag n) (flat_map parts_of g))
+    | TIHRef u => option_map (fun t => [t]) (rec (KHRef u false) (flat_map parts_of g))
+    | TIProt => option_map (fun t => [t]) (rec KProt (flat_map parts_of g))
+    end
+  end.
+Fixpoint merge_all (rec : kind -> list rt -> option rt) (gs : list (list rt)) : option (list rt) :=
+  match gs with
+  | [] => Some []
+  | g :: r =>
+    match merge_group rec g, merge_all rec r with
+    | Some a, Some b => Some (a ++ b)
+    | _, _ => None
+    end
+  end.
+Definition nonempty (p : rt) : bool := negb (Nat.eqb (rlen p) 0).
 Fixpoint mk (fuel : nat) (k : kind) (raw : list rt) : option rt :=
   match fuel with
   | O => None
-  | S f =>
-    let ne := filter (fun p => negb (Nat.eqb (rlen p) 0)) raw in
-    let un := flat_map unpack ne in
-    let merge_group (g : list rt) : option (list rt) :=
-      match g with
-      | [] => Some []
-      | [x] => Some [x]
-      | x :: _ =>
-        match typeinfo x with
-        | TINone => Some g
-        | TIStr => Some [RStr (flat_map str_val (flat_map parts_of g))]
-        | TIText => option_map (fun t => [t]) (mk f KText (flat_map parts_of g))
-        | TITag n => option_map (fun t => [t]) (mk f (KTag n) (flat_map parts_of g))
-        | TIHRef u => option_map (fun t => [t]) (mk f (KHRef u false) (flat_map parts_of g))
-        | TIProt => option_map (fun t => [t]) (mk f KProt (flat_map parts_of g))
-        end
-      end in
-    let fix all (gs : list (list rt)) : option (list rt) :=
-      match gs with
-      | [] => Some []
-      | g :: r =>
-        match merge_group g, all r with
-        | Some a, Some b => Some (a ++ b)
-        | _, _ => None
-        end
-      end in
-    option_map (build k) (all (groupby un))
+  | S f => option_map (build k) (merge_all (mk f) (groupby (flat_map unpack (filter nonempty raw))))
   end.
 
 (* the constructor with fuel that is always sufficient (Proofs: mk_fuel_enough) *)
